@@ -95,3 +95,13 @@ def ngramSpec (F : List Nat) (minG maxG : Nat) : List (Nat × Nat) :=
   (List.range F.length).flatMap fun i => ngramRow F maxG i minG
 
 end TantivyModel.Tok
+
+namespace TantivyModel.Tok
+
+/-- `NgramTokenizer::new(min_gram, max_gram, _)` returns `Ok`: the two guards read from the source
+-- mirrors: src/tokenizer/ngram_tokenizer.rs::new -/
+def ngramNewOk (minG maxG : Nat) : Bool :=
+  !(Gen.NGRAM_NEW_REJECTS_ZERO_MIN != 0 && minG == 0) &&
+  !(Gen.NGRAM_NEW_REJECTS_MIN_GT_MAX != 0 && decide (minG > maxG))
+
+end TantivyModel.Tok
